@@ -374,7 +374,9 @@ def h_size(wp, n, args, callee):
 
 
 def h_make_dims(wp, n, args, callee):
-    """make_dims(sizes...) is the array of its arguments (ASSUMED: aggregate initialisation of std::array)"""
+    """make_dims(sizes...) is the array of its arguments   (proved: make_dims<N> for N = 1..5, specs/C16/spec.py)"""
+    if not (1 <= len(args) <= 5):
+        raise Unsupported(f'make_dims with {len(args)} sizes: outside the proved instantiations')
     return wp.env[wp.new_array([v.t for v in wp.ints(args)], 'make_dims')]
 
 
